@@ -744,6 +744,85 @@ fn check_memory_vs_log(w: &World, cx: &mut Ctx, only: Option<usize>) {
     }
 }
 
+/// the votes a pending transaction holds, canonical (shard.vote, sorted)
+fn votes_str(tx: &tensor_chain::DistributedTransaction, b: &Book) -> String {
+    let mut vs: Vec<(usize, String)> = tx.votes.iter().map(|(s, v)| (*s, match v {
+        PrepareVote::Yes { lock_handle, .. } => format!("y{}", b.h_c(*lock_handle)),
+        PrepareVote::No { .. } => "n".to_string(),
+        PrepareVote::Conflict { .. } => "c".to_string(),
+        _ => "?".to_string(),
+    })).collect();
+    vs.sort();
+    if vs.is_empty() { "-".to_string() } else { vs.iter().map(|(s, v)| format!("{s}.{v}")).collect::<Vec<_>>().join("/") }
+}
+
+/// what the running coordinator holds just before a `recover_from_wal` call: every pending
+/// transaction (index, phase, votes) and every lock whose holder the coordinator knows
+struct LiveSnapshot {
+    pending: Vec<(usize, u8, String)>,
+    locks: Vec<(usize, u64)>,
+}
+
+fn live_snapshot(w: &World) -> LiveSnapshot {
+    let c = w.c();
+    let pending = w.book.txs.iter().enumerate()
+        .filter_map(|(i, ti)| c.get(ti.real).map(|tx| (i, phase_num(tx.phase), votes_str(&tx, &w.book))))
+        .collect();
+    let locks = w.book.handles.iter().enumerate()
+        .filter_map(|(i, h)| c.lock_manager().lock_holder(&h.key).filter(|holder| c.get(*holder).is_some()).map(|holder| (i, holder)))
+        .collect();
+    LiveSnapshot { pending, locks }
+}
+
+/// oracles after a `recover_from_wal` call on a RUNNING coordinator ("every following sequence of
+/// recovery calls ... and further transactions"): recovery adds what the log restores, it never
+/// takes a transaction of the current life away.
+/// (1) a transaction pending before the call is pending after it; when the log does not show it as
+///     Prepared / Committing / Aborting (the harness' own reading of the file) it has the same phase
+///     and the same votes;
+/// (2) no lock whose holder the coordinator knew before the call is held afterwards by a
+///     transaction the coordinator no longer knows.
+fn check_recovery_call(w: &World, cx: &mut Ctx, before: &LiveSnapshot) {
+    let site = "tensor_chain.distributed_tx.recover_from_wal";
+    let c = w.c();
+    for (t, ph, votes) in &before.pending {
+        cx.rep.hit("oracle.recovery_call_keeps_live_tx");
+        let ti = &w.book.txs[*t];
+        let cid = *t as u64 + 1;
+        let restored_by_log = matches!(log_view(&w.book.recs, cid), Some(lv) if !lv.completed && matches!(lv.phase, 1 | 2 | 4));
+        match c.get(ti.real) {
+            None => {
+                let held: Vec<usize> = w.book.handles.iter().enumerate()
+                    .filter(|(_, h)| c.lock_manager().lock_holder(&h.key) == Some(ti.real)).map(|(i, _)| i + 1).collect();
+                violation(cx, w, &format!("{site}/live_transaction_dropped"),
+                    "a transaction that was pending on the running coordinator before a recover_from_wal call is no longer known after it (recovery adds what the log restores; it must not take transactions of the current life away)",
+                    json!({"tx": cid, "phase_before": ph, "votes_before": votes, "in_log_as_restorable": restored_by_log, "locks_still_held": held}));
+            }
+            Some(tx) => {
+                if !restored_by_log {
+                    cx.rep.hit("oracle.recovery_call_keeps_live_tx.unrestored");
+                    let (ph2, v2) = (phase_num(tx.phase), votes_str(&tx, &w.book));
+                    if ph2 != *ph || v2 != *votes {
+                        violation(cx, w, &format!("{site}/live_transaction_altered"),
+                            "a pending transaction the log does not restore (still collecting votes, or moved to Aborting in memory only) changed phase or votes across a recover_from_wal call",
+                            json!({"tx": cid, "phase_before": ph, "votes_before": votes, "phase_after": ph2, "votes_after": v2}));
+                    }
+                }
+            }
+        }
+    }
+    for (i, holder) in &before.locks {
+        let h = &w.book.handles[*i];
+        if let Some(now_holder) = c.lock_manager().lock_holder(&h.key) {
+            if c.get(now_holder).is_none() {
+                violation(cx, w, &format!("{site}/lock_of_unknown_transaction"),
+                    "after a recover_from_wal call a lock is held by a transaction the coordinator no longer knows (its holder was pending before the call): nothing can release it but the lock expiry",
+                    json!({"handle": i + 1, "key": h.key, "holder": w.book.tx_c(now_holder), "holder_before": w.book.tx_c(*holder)}));
+            }
+        }
+    }
+}
+
 /// wait until every pending transaction is clearly inside or clearly outside its timeout
 fn pin_clock(w: &World) -> u64 {
     let mut t0 = now_ms();
@@ -990,12 +1069,15 @@ fn exec(w: &mut World, op: &Op, cx: &mut Ctx) {
         }
         Op::RecoverLive => {
             cx.rep.hit("op.recover_live");
+            let before = live_snapshot(w);
             let t0 = now_ms();
             let r = w.c().recover_from_wal();
             let res = match r {
                 Ok(s) => format!("recovered:{}:{}:{}:{}", s.pending_prepare, s.pending_commit, s.pending_abort, s.lock_releases_recovered),
                 Err(e) => format!("err:{}", vname(&e)),
             };
+            // oracles on the real coordinator, before the clock guard (they do not depend on the clock)
+            check_recovery_call(w, cx, &before);
             if now_ms().saturating_sub(t0) > GUARD_MS / 2 {
                 w.clock_unsure = true;
                 return;
@@ -1739,7 +1821,14 @@ fn scenario(seed_rng: &mut Rng, cx: &mut Ctx, first_cuts: Option<&mut Vec<usize>
     if capped {
         cx.rep.hit("scenario.capped");
     }
-    let phase_a = gen_phase_wide(&mut r, 0, ntx, timeout_a == 0, wide);
+    let mut phase_a = gen_phase_wide(&mut r, 0, ntx, timeout_a == 0, wide);
+    {
+        let mut rl = r.fork("live_a");
+        if rl.chance(1, 4) {
+            sprinkle_recover_live(&mut rl, &mut phase_a);
+            cx.rep.hit("scenario.recover_live_sprinkled");
+        }
+    }
     let mut cases = 0u64;
     let mut nontrivial = false;
 
@@ -1802,7 +1891,14 @@ fn scenario(seed_rng: &mut Rng, cx: &mut Ctx, first_cuts: Option<&mut Vec<usize>
                 exec(&mut wb, &op, cx);
             }
             let n_more = 1 + rb.below(2) as usize;
-            let more = gen_phase(&mut rb, wb.book.txs.len(), n_more, wb.timeout == 0);
+            let mut more = gen_phase(&mut rb, wb.book.txs.len(), n_more, wb.timeout == 0);
+            // every other round: recovery calls on the running coordinator in between the new
+            // transactions' begins and votes (own generator: the other draws stay what they were)
+            let mut rl = rb.fork(&format!("live{round}"));
+            if rl.chance(1, 2) {
+                sprinkle_recover_live(&mut rl, &mut more);
+                cx.rep.hit("scenario.recover_live_sprinkled");
+            }
             for op in &more {
                 exec(&mut wb, op, cx);
             }
@@ -1898,6 +1994,102 @@ fn directed(cx: &mut Ctx) {
                 cx.rep.case("directed", Some(&key));
             }
         }
+    }
+}
+
+/// `recover_from_wal` called again on the RUNNING coordinator, with transactions of the current
+/// life pending ("every following sequence of recovery calls ... and further transactions"): the
+/// shortest history in which inserting-into (rather than replacing) the pending map is the only
+/// thing that keeps a live transaction, and its neighbours.  Each script names the outcomes its
+/// transactions must reach (canonical id, 'c' | 'a' in the log).
+fn directed_recover_again(cx: &mut Ctx) {
+    let yes = V::YesLocked;
+    let b2 = Op::Begin { parts: vec![0, 1], xflag: false };
+    let v = |t: usize, shard: usize, v: V| Op::Vote { t, shard, v };
+    let full = Op::Crash { cut: Cut::Full, timeout: NEVER_MS, maxc: 100, cap: None };
+    // T1 prepared, crash at a record boundary `back` records from the end, restart
+    let life1 = |back: usize| vec![
+        b2.clone(), v(0, 0, yes.clone()), v(0, 1, yes.clone()),
+        Op::Crash { cut: Cut::Boundary { back, delta: 0 }, timeout: NEVER_MS, maxc: 100, cap: None },
+    ];
+    let mut scripts: Vec<(String, Vec<Op>, Vec<(u64, char)>)> = vec![];
+    for back in 0..4usize {
+        // the minimal history: restart, recover, begin T2 + one YES vote, recover again, drive T2 to completion
+        let mut ops = life1(back);
+        ops.extend([Op::RecoverLive, b2.clone(), v(1, 0, yes.clone()), Op::RecoverLive, v(1, 1, yes.clone()), Op::Commit(1), Op::RecoverLive]);
+        scripts.push((format!("yes-vote-then-recover-again.back{back}"), ops, vec![(2, 'c')]));
+        // the same with T2 moved to Aborting (memory only) by a NO vote
+        let mut ops = life1(back);
+        ops.extend([Op::RecoverLive, b2.clone(), v(1, 0, yes.clone()), v(1, 1, V::No), Op::RecoverLive, Op::Decisions, Op::Flush, Op::CAbort(1), Op::RecoverLive]);
+        scripts.push((format!("no-vote-aborting-then-recover-again.back{back}"), ops, vec![]));
+    }
+    // neighbours
+    let mut ops = life1(0);
+    ops.extend([b2.clone(), Op::RecoverLive, v(1, 0, yes.clone()), Op::RecoverLive, Op::RecoverLive, v(1, 1, yes.clone()), Op::RecoverLive, Op::Commit(1), Op::Commit(0)]);
+    scripts.push(("begun-unvoted-then-recover-thrice".into(), ops, vec![(1, 'c'), (2, 'c')]));
+    // no crash at all: a recovery call on the first life's coordinator
+    scripts.push(("first-life-recover-between-votes".into(), vec![
+        b2.clone(), v(0, 0, yes.clone()), Op::RecoverLive, v(0, 1, yes.clone()), Op::RecoverLive, Op::Commit(0), Op::RecoverLive,
+    ], vec![(1, 'c')]));
+    // cross-shard conflict: Aborting in memory only, abort queued
+    scripts.push(("cross-shard-aborting-then-recover".into(), vec![
+        Op::Begin { parts: vec![0, 1], xflag: true }, v(0, 0, yes.clone()), v(0, 1, yes.clone()), Op::RecoverLive, Op::Flush, Op::CAbort(0),
+    ], vec![]));
+    // one prepared and one collecting votes, both of this life; recover() moves the prepared one on in memory
+    let mut ops = life1(0);
+    ops.extend([
+        b2.clone(), Op::Begin { parts: vec![0, 1, 2], xflag: false },
+        v(1, 0, yes.clone()), v(2, 0, yes.clone()), v(1, 1, yes.clone()), v(2, 2, V::YesFake(1)),
+        Op::RecoverLive, Op::RecoverMem, Op::RecoverLive, Op::Decisions,
+        Op::Commit(1), v(2, 1, yes.clone()), Op::RecoverLive, Op::Abort(2), Op::Commit(0),
+    ]);
+    scripts.push(("prepared-and-collecting-then-recover".into(), ops, vec![(1, 'c'), (2, 'c'), (3, 'a')]));
+    // second restart forgets T2 (as it must); T3 of the third life then survives a recovery call
+    let mut ops = life1(0);
+    ops.extend([b2.clone(), v(1, 0, yes.clone()), full.clone(), Op::RecoverLive, b2.clone(), v(2, 1, yes.clone()), Op::RecoverLive, v(2, 0, yes.clone()), Op::Abort(2), Op::RecoverLive]);
+    scripts.push(("third-life-transaction-then-recover".into(), ops, vec![(3, 'a')]));
+    // the running coordinator's file was emptied at a checkpoint before the recovery call
+    scripts.push(("truncate-then-recover-between-votes".into(), vec![
+        b2.clone(), v(0, 0, yes.clone()), v(0, 1, yes.clone()), Op::Commit(0), Op::Truncate,
+        b2.clone(), v(1, 0, yes.clone()), Op::RecoverLive, v(1, 1, yes.clone()), Op::RecoverLive, Op::Commit(1),
+    ], vec![(2, 'c')]));
+    for (name, ops, want) in scripts {
+        cx.rep.hit("directed.recover-again");
+        let mut w = World::new(NEVER_MS, 100, cx.m);
+        for op in &ops {
+            exec(&mut w, op, cx);
+        }
+        if w.clock_unsure {
+            continue;
+        }
+        for (cid, o) in &want {
+            if w.book.durable.get(cid) != Some(o) {
+                violation(cx, &w, "tensor_chain.distributed_tx.recover_from_wal/live_transaction_cannot_complete",
+                    "a transaction of the current life could not be driven to its outcome on a coordinator that was asked to recover from its WAL again",
+                    json!({"script": name, "tx": cid, "wanted": o.to_string(), "logged": w.book.durable.get(cid).map(|c| c.to_string())}));
+            }
+        }
+        let mut rr = Rng::new(7);
+        drain_and_verify(&mut w, cx, &mut rr);
+        if !w.clock_unsure {
+            cx.rep.case("directed.recover_again", Some(&w.trace.join(";")));
+        }
+    }
+}
+
+/// recovery calls on the running coordinator right behind a begin or a vote (the transaction is
+/// then still collecting votes, or was just moved to Aborting / Prepared)
+fn sprinkle_recover_live(r: &mut Rng, ops: &mut Vec<Op>) {
+    let mut spots: Vec<usize> = ops.iter().enumerate()
+        .filter(|(_, o)| matches!(o, Op::Begin { .. } | Op::Vote { .. })).map(|(i, _)| i + 1).collect();
+    if spots.is_empty() {
+        return;
+    }
+    r.shuffle(&mut spots);
+    spots.truncate(1 + r.below(3) as usize);
+    spots.sort_unstable_by(|a, b| b.cmp(a));
+    for at in spots {
+        ops.insert(at, Op::RecoverLive);
     }
 }
 
@@ -3040,6 +3232,8 @@ fn main() {
         "handles.finish.force_resolve", "handles.finish.complete_commit",
         "wal.len.lt256", "wal.len.lt8k", "wal.len.lt64k", "wal.len.ge64k", "wal.len.ge1m", "sizes.payload.ge64k", "sizes.payload.ge1m",
         "oracle.open_count_vs_replay", "oracle.sizes.replay", "scenario.wide", "direct.append.long",
+        "directed.recover-again", "oracle.recovery_call_keeps_live_tx", "oracle.recovery_call_keeps_live_tx.unrestored",
+        "scenario.recover_live_sprinkled",
         "directed.wide.between-prepare-and-commit", "directed.wide.abort-intent", "directed.wide.cap", "directed.wide.ladder",
     ]
     .iter()
@@ -3054,6 +3248,11 @@ fn main() {
     // boundary; a long record right at the WAL's own size limit), the regression of the repaired
     // lock-handle defect (0358827a) and the directed cases of the two known findings (rotation,
     // truncate_wal with a transaction pending)
+    {
+        // recovery calls on the running coordinator with transactions of the current life pending
+        let mut cx = Ctx { m: &mut m, rep: &mut rep, stream_prefix: "live." };
+        directed_recover_again(&mut cx);
+    }
     let sizes = WideSizes::measure();
     rep.note(&format!(
         "wide transactions: TxBegin payload bytes for the participant counts used - {} -> {}, {} -> {}, {} -> {}, {} -> {}, {} -> {}, {} -> {}",
